@@ -145,17 +145,6 @@ Definition ola_model (size hop : option nat) (wnd : wndarg) (normalize : bool) (
     end
   end.
 
-(* IEEE-754 double value of the Python expression 1 / c for an int 1 <= c < 2^53
-   (round to nearest; a tie cannot occur unless c is a power of two, where the quotient is exact). *)
-Definition float_recip (c : Z) : Qc :=
-  let l := Z.log2 c in
-  if Z.eqb c (2 ^ l) then Q2Qc (1 # Z.to_pos c)
-  else let k := (l + 53)%Z in
-       let m := ((2 * 2 ^ k + c) / (2 * c))%Z in
-       Q2Qc (m # Z.to_pos (2 ^ k)).
-(* ceil(size / hop) for positive ints *)
-Definition ceil_div (size hop : nat) : Z := ((Z.of_nat size + Z.of_nat hop - 1) / Z.of_nat hop)%Z.
-
 (* ------------------------------------------------------------------ stft: blk_gen *)
 (* lines 1116-1123 *)
 Definition stft_resolve_wnd (size : nat) (w : wndarg) : exn + option (list Qc) :=
